@@ -9,6 +9,7 @@ import (
 	"os"
 	"os/exec"
 	"path/filepath"
+	"regexp"
 	"sort"
 	"strconv"
 	"strings"
@@ -16,6 +17,7 @@ import (
 	"time"
 
 	"github.com/d5/tengo/v2"
+	"github.com/d5/tengo/v2/stdlib"
 	"pgregory.net/rapid"
 
 	"verifharness/bridge"
@@ -51,6 +53,8 @@ type payload struct {
 	// ViaScript: the real run goes through Script.RunContext (compile + run in
 	// one call) and everything afterwards uses the object that call returned
 	ViaScript bool `json:"via_script,omitempty"`
+	// Stdlib: standard-library modules the script may import
+	Stdlib []string `json:"stdlib,omitempty"`
 }
 
 const instrBudget = 3000000
@@ -91,6 +95,13 @@ func runCase(p payload) (o outcome) {
 	mm := tengo.NewModuleMap()
 	for k, v := range p.Modules {
 		mm.AddSourceModule(k, []byte(v))
+	}
+	for _, name := range p.Stdlib {
+		if attrs, ok := stdlib.BuiltinModules[name]; ok {
+			mm.AddBuiltinModule(name, attrs)
+		} else if src, ok := stdlib.SourceModules[name]; ok {
+			mm.AddSourceModule(name, []byte(src))
+		}
 	}
 	s.SetImports(mm)
 	memo := map[int]tengo.Object{}
@@ -689,6 +700,83 @@ func TestBuiltinEnumeration(t *testing.T) {
 		}
 	}
 	ev.ClassN("enumerated-builtin-calls", int64(calls))
+}
+
+// ---------- (c2) exhaustive stdlib function x argument enumeration ----------
+//
+// "Misusing builtins" does not stop at the core builtins for an embedder who
+// hands the standard library to scripts: every function of the side-effect
+// free modules is called through a script with every tuple (arity 0..2) of a
+// hostile value pool - wrong types, invalid UTF-8 next to characters that need
+// escaping, NaN, negative and large counts, host functions as callbacks. The
+// oracle is C05's: the run returns nil or an error, no panic, the object stays
+// usable. Left out: os and fmt (side effects on the host process by design)
+// and times.sleep (blocks by design; RunContext cannot interrupt a Go call).
+// Ints stop at 100000 so that repeat/pad/perm stay within a few MB.
+
+var stdlibRepr = []*lang.Val{
+	{T: "int", I: 0}, {T: "int", I: -1}, {T: "int", I: 7}, {T: "int", I: 100000},
+	{T: "float", Bits: math.Float64bits(2.5)}, {T: "float", Bits: math.Float64bits(math.NaN())},
+	{T: "string", S: []byte("")}, {T: "string", S: []byte("a\"\\\n\x80\xffé%d\xc3")},
+	{T: "bytes", S: []byte("\"\x01\xbf\xf0\x9f")}, {T: "bool", B: true}, {T: "undefined"},
+	{T: "array", Share: 1, Kids: []*lang.Val{{T: "int", I: 1}, {T: "string", S: []byte("s\t\x9c")}}},
+	{T: "map", Share: 3, Keys: []string{"a\n\x85"}, Kids: []*lang.Val{{T: "int", I: 1}}},
+	{T: "time", Sec: 1500000000}, {T: "hostfn", Name: "hf_first"},
+}
+
+var stdlibEnumMods = []string{"base64", "enum", "hex", "json", "math", "rand", "text", "times"}
+
+func TestStdlibEnumeration(t *testing.T) {
+	calls := 0
+	for _, mod := range stdlibEnumMods {
+		var fns []string
+		if attrs, ok := stdlib.BuiltinModules[mod]; ok {
+			for k, v := range attrs {
+				if _, isFn := v.(*tengo.UserFunction); isFn && !(mod == "times" && k == "sleep") {
+					fns = append(fns, k)
+				}
+			}
+		} else {
+			// enum is a source module: its exported functions, from its own text
+			for _, m := range regexp.MustCompile(`(?m)^\s+(\w+): func\(`).FindAllStringSubmatch(stdlib.SourceModules[mod], -1) {
+				fns = append(fns, m[1])
+			}
+		}
+		sort.Strings(fns)
+		if len(fns) == 0 {
+			t.Fatalf("no functions found in stdlib module %q", mod)
+		}
+		for _, fn := range fns {
+			for arity := 0; arity <= 2; arity++ {
+				idx := make([]int, arity)
+				for {
+					inputs := map[string]*lang.Val{}
+					args := make([]string, arity)
+					for i, j := range idx {
+						n := "a" + strconv.Itoa(i)
+						inputs[n] = stdlibRepr[j]
+						args[i] = n
+					}
+					src := fmt.Sprintf("m := import(%q)\nout := m.%s(%s)\n", mod, fn, strings.Join(args, ", "))
+					check(t, "TestStdlibEnumeration", payload{Kind: "stdlib-enumeration", Source: src, Inputs: inputs, Stdlib: []string{mod}}, []string{"stdlib:" + mod})
+					calls++
+					k := arity - 1
+					for k >= 0 {
+						idx[k]++
+						if idx[k] < len(stdlibRepr) {
+							break
+						}
+						idx[k] = 0
+						k--
+					}
+					if k < 0 {
+						break
+					}
+				}
+			}
+		}
+	}
+	ev.ClassN("enumerated-stdlib-calls", int64(calls))
 }
 
 // ---------- (d) native fuzzing: source bytes -> compile -> RunContext ----------
